@@ -112,6 +112,16 @@ CHECKS = {
               "entry-point names round trip over a generated grammar."),
         technique="TLA+ order/registry specification checked exhaustively by TLC + table-driven conformance of PluginRef/PluginGroup + replay of all registration orders",
         design="4/C16"),
+    "C14": dict(
+        text=("PartialMerge.tla defines the documented merge; TLC checks identity, associativity (with conflict absorbing), list "
+              "concatenation, set union, recursive nested merge, no-value-dropped and later-wins for all triples of a 90-value "
+              "universe and all pairs of a 486-value universe including falsy atoms and empty collections, and exports the expected "
+              "outcome of every pair; each pair is rebuilt on two real model families (MetadataSchema partials and a plain pydantic "
+              "PartialFactory with '' and 0.0) in randomly chosen production ways (constructed, parsed from dict/JSON/YAML, "
+              "to_partial of complete objects), merged and compared; operands are checked for mutation; random triples and the "
+              "to_partial/from_partial round trip are checked on real objects."),
+        technique="TLA+ merge algebra checked exhaustively by TLC + exported expected outcomes replayed on real partial models",
+        design="4/C14"),
 }
 
 NOT_YET = "check not built yet (work in progress)"
